@@ -733,12 +733,66 @@ func (c *Ctx) c15Advance(rule string, fn *ssa.Function) {
 	} else {
 		c.add("shape", rule, fname+"#advance-frame", Held, c.P.InstrPos(calls[0]), "exactly the two retention fields from the request and RouteGeneration = next(stored) are changed")
 	}
-	c.Guard(rule, fn, CallTo{c15Encode},
+	// E is the rendered name of the local that holds the loaded row; it was resolved above by SSA
+	// identity (written row → its single whole-row source → single store from the loader), so the
+	// guards name it through the ‹stored› back-reference, never through the source-level identifier.
+	c.c15GuardRef(rule, fn, CallTo{c15Encode}, map[string]string{"stored": E},
 		"*RuntimeMeta*(*)#1 == true",
-		"req.RetentionThroughSeq > "+E+".RetentionThroughSeq",
-		E+".ChannelEpoch == req.ExpectedChannelEpoch",
-		E+".LeaderEpoch == req.ExpectedLeaderEpoch",
-		E+".Leader == req.ExpectedLeader",
-		E+".LeaseUntilMS == req.ExpectedLeaseUntilMS",
+		"req.RetentionThroughSeq > ‹stored›.RetentionThroughSeq",
+		"‹stored›.ChannelEpoch == req.ExpectedChannelEpoch",
+		"‹stored›.LeaderEpoch == req.ExpectedLeaderEpoch",
+		"‹stored›.Leader == req.ExpectedLeader",
+		"‹stored›.LeaseUntilMS == req.ExpectedLeaseUntilMS",
 	)
+}
+
+// c15GuardRef is c.Guard for guards that mention values the caller has already resolved structurally
+// (SSA value identity, callee results). A guard string names such a value as ‹name›; for matching the
+// placeholder is replaced by refs[name] (the value's rendering in this function), while the obligation
+// key keeps the placeholder. The rule therefore neither depends on nor reports the identifier a local
+// variable happens to have (renaming the local is behaviour preserving and must not fire).
+func (c *Ctx) c15GuardRef(rule string, fn *ssa.Function, eff Effect, refs map[string]string, guards ...string) {
+	if fn == nil {
+		return
+	}
+	fname := c.P.Name(fn)
+	c.FuncsAnalysed[fname] = true
+	label := eff.String() // callers pass effects that do not mention a back-referenced value
+	effs := instrsMatching(fn, eff)
+	if len(effs) == 0 {
+		c.add("guard", rule, fname+"#"+label, Undecided, c.P.Pos(fn.Pos()), "no instruction matches the effect (rule would be vacuous; the code moved or the effect shape changed)")
+		return
+	}
+	for _, gs := range guards {
+		real := gs
+		for k, v := range refs {
+			real = strings.ReplaceAll(real, "‹"+k+"›", v)
+		}
+		construct := fname + "#" + label + "⇐" + gs
+		if strings.Contains(real, "‹") {
+			c.add("guard", rule, construct, Undecided, c.P.InstrPos(effs[0]), "guard uses a back-reference that was not resolved")
+			continue
+		}
+		g := parseGuard(real)
+		removed, descr := guardEdges(fn, g)
+		c.EdgesRemoved += len(removed)
+		limit := reachUnguarded(fn, removed, g.afters)
+		var bad []string
+		for _, e := range effs {
+			if lim, ok := limit[e.Block()]; ok && indexIn(e.Block(), e) < lim {
+				bad = append(bad, c.P.InstrPos(e))
+			}
+		}
+		if len(bad) == 0 {
+			c.add("guard", rule, construct, Held, c.P.InstrPos(effs[0]),
+				fmt.Sprintf("%d effect site(s); %d guard edge(s) removed [%s]; no unguarded path from entry (back-references: %v)", len(effs), len(removed), strings.Join(dedup(descr), "; "), refs))
+			continue
+		}
+		why := "an entry→effect path avoids every matching guard edge"
+		if len(removed) == 0 && len(g.afters) == 0 {
+			why = "no branch in the function establishes the required fact"
+		}
+		c.add("guard", rule, construct, Violated, bad[0],
+			fmt.Sprintf("effect %q in %s reachable without guard %q at %s: %s", eff.String(), fname, real, strings.Join(bad, ", "), why))
+	}
 }
